@@ -2292,6 +2292,10 @@ def norm_fns(records, public_types=()):
         if r[2].startswith("other:") and r[2][6:] not in public_types:
             r[2] = "other:_"        # a private helper type of the expansion (e.g. the serde visitor): its name is not observable
         calls = [c_ for c_ in kv.get("calls", "-").split(",") if c_ and c_ != "-" and c_ not in PRIVATE_HELPER_NAMES]
+        if "try_new" in calls and "new" in calls:
+            # a call named `new` beside try_new is somebody else's constructor (`Box::new` inside the expansion of a
+            # `vec![..]` default expression): the guards run through try_new either way
+            calls.remove("new")
         kv["calls"] = ",".join(calls) or "-"
         out.append("|".join(r[:4] + ["%s=%s" % (k_, kv[k_]) for k_ in (x.split("=", 1)[0] for x in r[4:])]))
     return sorted(out)
